@@ -425,7 +425,14 @@ func (ce *CEnv) call(e *CExpr) Val {
 		return boolVal(mapDom(ce.heap, m, keyTerm(ce.eval(args[1]))))
 	case "ite":
 		c := ce.evalBool(args[0])
-		return valIte(c, ce.eval(args[1]), ce.eval(args[2]))
+		a, b := ce.eval(args[1]), ce.eval(args[2])
+		if a.K == VOpaque && a.Typ == nil {
+			a = nilLike(b)
+		}
+		if b.K == VOpaque && b.Typ == nil {
+			b = nilLike(a)
+		}
+		return valIte(c, a, b)
 	case "ref":
 		return intVal(refOf(ce.eval(args[0])))
 	case "fresh":
